@@ -326,6 +326,28 @@ def records_part(run, quick):
         pc = pc_value(task)
         if entry is not None and pc != entry:
             f.append((kind + "|pc", "program counter %r, the start record says %#x" % (pc, entry)))
+        if not f and recs and hasattr(task, "relocate") and rng.random() < 0.6:
+            # relocation of the raw image (once, sometimes twice): its lowest byte moves to the requested address, every
+            # byte keeps its distance to it, and the program counter is the new base
+            base = min(a for a, d in recs)
+            targets = [rng.choice([0x1000, 0x20000, 0x400000, 0x10, 0]) + 16 * rng.randrange(0, 64) for _ in range(rng.choice([1, 2]))]
+            try:
+                for vaddr in targets:
+                    task.relocate(vaddr)
+            except Exception as x:
+                f.append((kind + "|relocate-raised|" + type(x).__name__, "relocate%s raised %r" % (targets, x)))
+            else:
+                vaddr = targets[-1]
+                for a, d in recs:
+                    got = membytes(task, a - base + vaddr, len(d))
+                    w = [want[a + i] for i in range(len(d))]
+                    if got != w:
+                        k = next(i for i in range(len(d)) if got[i] != w[i])
+                        f.append((kind + "|relocated-image", "after relocate%s (image base was %#x): byte at %#x: memory has %r, the image holds %r there" % (
+                            [hex(t) for t in targets], base, a - base + vaddr + k, got[k], w[k])))
+                        break
+                if pc_value(task) != vaddr:
+                    f.append((kind + "|relocated-pc", "after relocate%s the program counter is %r" % ([hex(t) for t in targets], pc_value(task))))
         for key, detail in f[:2]:
             run.violation(key, detail, {"format": kind, "text": txt.hex()})
 
